@@ -286,67 +286,6 @@ void run_worker(Ctx &c, int idx) {
     c.gate.notify_all();
 }
 
-
-// ---- sizes of 4 GiB and more (address space only): a thin allocator over the simulated one hands out a 256-byte block whatever size is
-// asked for, nobody touches the bytes; a second, short-lived tracer over it must still account the requested sizes exactly
-static struct aws_allocator *g_thin_base = nullptr;
-static void *thin_acquire(struct aws_allocator *, size_t) { return aws_mem_acquire(g_thin_base, 256); }
-static void thin_release(struct aws_allocator *, void *p) { aws_mem_release(g_thin_base, p); }
-static void *thin_realloc(struct aws_allocator *, void *old, size_t, size_t) { return old ? old : aws_mem_acquire(g_thin_base, 256); }
-static void *thin_calloc(struct aws_allocator *, size_t, size_t) { return aws_mem_calloc(g_thin_base, 1, 256); }
-void huge_round(Ctx &c, int requested_level, size_t frames, uint64_t seed) {
-    g_thin_base = c.parent;
-    struct aws_allocator thin;
-    memset(&thin, 0, sizeof thin);
-    thin.mem_acquire = thin_acquire; thin.mem_release = thin_release; thin.mem_realloc = thin_realloc; thin.mem_calloc = thin_calloc;
-    struct aws_allocator *tr = aws_mem_tracer_new(&thin, nullptr, (enum aws_mem_trace_level)requested_level, frames);
-    if (!tr) sim::violation("c17:new", "aws_mem_tracer_new returned NULL");
-    sim::Rng r(sim::mix64(seed, 0x4B16));
-    static const std::vector<int64_t> big = {0xFFFFFFFFll, 0x100000000ll, 0x100000064ll, 0x300000007ll, 0x200000000ll, 100, 0x7FFFFFFFll};
-    struct HB { void *p; size_t size; };
-    std::vector<HB> live;
-    auto check = [&](const char *what) {
-        size_t want = 0;
-        for (auto &b : live) want += b.size;
-        size_t bytes = aws_mem_tracer_bytes(tr), count = aws_mem_tracer_count(tr);
-        if (c.level == 0) { want = 0; }
-        if (bytes != want || count != (c.level == 0 ? 0 : live.size()))
-            sim::violation("c17:bytes", "%s (sizes of 4 GiB and more): tracer reports %zu bytes in %zu allocations, the live allocations add up to %zu in %zu", what, bytes, count, want, live.size());
-    };
-    int n = (int)r.range(4, 12);
-    for (int k = 0; k < n; k++) {
-        uint64_t w = r.below(10);
-        if (w < 3 || live.empty()) {
-            size_t sz = (size_t)r.pick(big);
-            void *p = aws_mem_acquire(tr, sz);
-            live.push_back(HB{p, sz});
-            check("after acquire");
-        } else if (w < 5) {
-            size_t num = (size_t)1 << r.range(10, 22), each = (size_t)1 << r.range(10, 14);
-            void *p = aws_mem_calloc(tr, num, each);
-            live.push_back(HB{p, num * each});
-            check("after calloc");
-        } else if (w < 8) {
-            size_t i = r.below(live.size());
-            size_t sz = (size_t)r.pick(big);
-            void *p = live[i].p;
-            if (aws_mem_realloc(tr, &p, live[i].size, sz)) sim::violation("c17:realloc", "realloc to %zu failed", sz);
-            live[i] = HB{p, sz};
-            check("after realloc");
-        } else {
-            size_t i = r.below(live.size());
-            aws_mem_release(tr, live[i].p);
-            live.erase(live.begin() + (long)i);
-            check("after release");
-        }
-    }
-    while (!live.empty()) { aws_mem_release(tr, live.back().p); live.pop_back(); }
-    check("after releasing everything");
-    sim::forget_objects(tr->impl, 1024); // the tracer's own state (atomic counter, mutex) lives on the real heap: its address may come back
-    if (aws_mem_tracer_destroy(tr) != &thin) sim::violation("c17:destroy", "aws_mem_tracer_destroy did not return the wrapped allocator");
-    sim::probe("tracer_accounted_sizes_of_4GiB_and_more");
-}
-
 struct WArg { Ctx *c; int idx; };
 void worker_fn(void *a) { WArg *wa = (WArg *)a; run_worker(*wa->c, wa->idx); }
 
@@ -394,7 +333,6 @@ RunInfo run(const sim::Plan &plan) {
     }
     const bool second = plan.get("second_lifetime", 0) != 0;
     if (second) mini_round(c, "fixed call site, first tracer");
-    if (plan.get("huge_sizes", 0)) huge_round(c, requested_level, (size_t)plan.get("frames", 8), plan.seed);
     quiescent_check(c, "after all threads finished", true);
     std::vector<Block> rest;
     for (int k = 1; k <= c.nworkers; k++) {
@@ -537,7 +475,6 @@ void gen(uint64_t seed, int tier, sim::Plan &p) {
         }
     }
     // "same size" reallocs: b == -1 means keep the current size; resolved at run time (see below)
-    if (r.chance(0.06)) p.cfg["huge_sizes"] = 1; // a round with sizes of 4 GiB and more on a second tracer (address space only)
     p.cfg["soft_budget"] = 200000;
     p.cfg["hard_budget"] = 3000000;
 }
@@ -569,7 +506,7 @@ extern const Harness H_C17 = {
     "C17", "memory tracer's byte and allocation counts always equal what is live", gen, run, op_text,
     "Plans: tracer level NONE/BYTES/STACKS with 0-200 frames over a simulated allocator (immediate cross-thread address reuse, realloc moves "
     "or stays, optional vtable entries, preemption inside allocator calls), in 15% of the runs on a system whose high-resolution clock read fails; 1-4 threads x 4-100 operations of acquire / calloc / realloc (grow, "
-    "shrink, same size, to 0, from NULL) / release, blocks obtained from the wrapped allocator behind the tracer's back and later resized or released through it, blocks handed to other threads, concurrent bytes/count queries and dumps, (6%) a round with requested sizes of 4 GiB and more on a second tracer over a thin allocator, barrier "
+    "shrink, same size, to 0, from NULL) / release, blocks obtained from the wrapped allocator behind the tracer's back and later resized or released through it, blocks handed to other threads, concurrent bytes/count queries and dumps, barrier "
     "checkpoints where bytes and count must equal the reference live set exactly and a dump must list exactly the live allocations. Distinct = "
     "sync-order fingerprint combined with plan, level and allocator behaviour; non-trivial = tracing on, at least 4 operations and "
     "(multi-threaded) a preemption on shared tracer state or (single-threaded) at least two exact checks.",
